@@ -302,3 +302,241 @@ contract(
     ],
     concretize=concretize_vault, gen=gen_vault,
 )
+
+
+# ------------------------------------------------------------------ exact abstract operations
+# Each vault function is also proved to produce *exactly* the state of an abstract operation on the
+# run-length sequence (clause "exact"), up to the identity of the nodes it creates.  Callers are then
+# verified against that abstract operation (modular use through `call=`), which keeps their VCs ground.
+from pyvc.lists import LCat, LMap, LSlice, cat_term, slice_term  # noqa: E402
+
+FRESH_ITEM, FRESH_CUR = -1, -2      # markers in the expected node sequence: clone of item / of the split run
+
+
+def _opt(cond, x):
+    """[x] if cond else []  as a list term"""
+    return LSlice(LConc([x]), 0, simp_int(z3.If(cond, 1, 0)))
+
+
+def _shift(term, delta):
+    x = z3.FreshInt("x")
+    return LMap(term, x, x + delta)
+
+
+class Expected:
+    """expected post-state of a vault kind: node markers, repeats, contents, map (all list terms)"""
+
+    def __init__(self, nodes, reps, pls, m):
+        self.nodes, self.reps, self.pls, self.m = nodes, reps, pls, m
+
+
+def _run_of(a):
+    """(i, start) of the run containing a.position — as Skolem-free terms we cannot name i; the
+    callers below receive i from a `located` witness"""
+    raise NotImplementedError
+
+
+def abs_set(v, mname, i, position, item_node, item_rep, item_pl, clone):
+    """set (case fits) at run i: split into [before b][item r][after a]"""
+    kind = KIND_OF_MAP[mname]
+    seq, m = v.seq(kind).term, v.map(mname).term
+    cur = lift(seq.sel(i))
+    start = before(v.map(mname), i) + 1
+    b = position - start
+    a = lift(m.sel(i)) - (position + item_rep - 1)
+    new_marker = z3.If(clone, z3.IntVal(FRESH_ITEM), item_node) if isinstance(clone, z3.ExprRef) else (
+        z3.IntVal(FRESH_ITEM) if clone else item_node)
+    nodes = cat_term(cat_term(cat_term(cat_term(slice_term(seq, None, i), _opt(b >= 1, cur)), LConc([new_marker])),
+                              _opt(a >= 1, z3.IntVal(FRESH_CUR))), slice_term(seq, simp_int(i + 1), None))
+    cur_rep, cur_pl = v.rep_of(cur), v.pl_of(cur)
+    head_n = slice_term(seq, None, i)
+    tail_n = slice_term(seq, simp_int(i + 1), None)
+    x = z3.FreshInt("x")
+    reps = cat_term(cat_term(cat_term(cat_term(LMap(head_n, x, z3.Select(v.rep_arr, x)), _opt(b >= 1, b)),
+                                      LConc([item_rep])), _opt(a >= 1, a)), LMap(tail_n, x, z3.Select(v.rep_arr, x)))
+    y = z3.FreshInt("y")
+    pls = cat_term(cat_term(cat_term(cat_term(LMap(head_n, y, z3.Select(v.pl_arr, y)), _opt(b >= 1, cur_pl)),
+                                     LConc([item_pl])), _opt(a >= 1, cur_pl)), LMap(tail_n, y, z3.Select(v.pl_arr, y)))
+    mm = cat_term(cat_term(cat_term(cat_term(slice_term(m, None, i), _opt(b >= 1, position - 1)),
+                                    LConc([position + item_rep - 1])), _opt(a >= 1, lift(m.sel(i)))),
+                  slice_term(m, simp_int(i + 1), None))
+    return Expected(nodes, reps, pls, mm)
+
+
+def abs_insert(v, mname, i, position, item_rep, item_pl):
+    kind = KIND_OF_MAP[mname]
+    seq, m = v.seq(kind).term, v.map(mname).term
+    cur = lift(seq.sel(i))
+    start = before(v.map(mname), i) + 1
+    b = position - start
+    cur_rep, cur_pl = v.rep_of(cur), v.pl_of(cur)
+    head_n, tail_n = slice_term(seq, None, i), slice_term(seq, simp_int(i + 1), None)
+    x, y = z3.FreshInt("x"), z3.FreshInt("y")
+    split = b >= 1
+    nodes = cat_term(cat_term(cat_term(cat_term(head_n, _opt(split, cur)), LConc([z3.IntVal(FRESH_ITEM)])),
+                              LConc([z3.If(split, z3.IntVal(FRESH_CUR), cur)])), tail_n)
+    reps = cat_term(cat_term(cat_term(cat_term(LMap(head_n, x, z3.Select(v.rep_arr, x)), _opt(split, b)),
+                                      LConc([item_rep])), LConc([z3.If(split, cur_rep - b, cur_rep)])),
+                    LMap(tail_n, x, z3.Select(v.rep_arr, x)))
+    pls = cat_term(cat_term(cat_term(cat_term(LMap(head_n, y, z3.Select(v.pl_arr, y)), _opt(split, cur_pl)),
+                                     LConc([item_pl])), LConc([cur_pl])), LMap(tail_n, y, z3.Select(v.pl_arr, y)))
+    mm = cat_term(cat_term(cat_term(cat_term(slice_term(m, None, i), _opt(split, position - 1)),
+                                    LConc([position + item_rep - 1])), LConc([lift(m.sel(i)) + item_rep])),
+                  _shift(slice_term(m, simp_int(i + 1), None), item_rep))
+    return Expected(nodes, reps, pls, mm)
+
+
+def abs_delete(v, mname, i):
+    kind = KIND_OF_MAP[mname]
+    seq, m = v.seq(kind).term, v.map(mname).term
+    cur = lift(seq.sel(i))
+    cur_rep, cur_pl = v.rep_of(cur), v.pl_of(cur)
+    keep = cur_rep >= 2
+    head_n, tail_n = slice_term(seq, None, i), slice_term(seq, simp_int(i + 1), None)
+    x, y = z3.FreshInt("x"), z3.FreshInt("y")
+    nodes = cat_term(cat_term(head_n, _opt(keep, cur)), tail_n)
+    reps = cat_term(cat_term(LMap(head_n, x, z3.Select(v.rep_arr, x)), _opt(keep, cur_rep - 1)),
+                    LMap(tail_n, x, z3.Select(v.rep_arr, x)))
+    pls = cat_term(cat_term(LMap(head_n, y, z3.Select(v.pl_arr, y)), _opt(keep, cur_pl)),
+                   LMap(tail_n, y, z3.Select(v.pl_arr, y)))
+    mm = cat_term(cat_term(slice_term(m, None, i), _opt(keep, lift(m.sel(i)) - 1)),
+                  _shift(slice_term(m, simp_int(i + 1), None), -1))
+    return Expected(nodes, reps, pls, mm)
+
+
+def exact_state(vnew, vold, mname, exp: Expected, i_wit):
+    """the post-state equals the expected abstract state up to the identity of created nodes"""
+    from pyvc.spec import LView as LV
+    kind = KIND_OF_MAP[mname]
+    s1, m1 = vnew.seq(kind), vnew.map(mname)
+    en_, er, ep, em = LV(exp.nodes), LV(exp.reps), LV(exp.pls), LV(exp.m)
+    j = z3.FreshInt("j")
+    sj, ej = s1[j], en_[j]
+    body = z3.And(
+        vnew.rep_of(sj) == er[j], vnew.pl_of(sj) == ep[j], m1[j] == em[j],
+        z3.Implies(ej >= 0, sj == ej), z3.Implies(ej < 0, sj >= vold.N0))
+    return z3.And(lift(s1.n) == lift(en_.n), lift(m1.n) == lift(en_.n),
+                  z3.ForAll([j], z3.Implies(z3.And(0 <= j, j < zint(en_.n)), body)))
+
+
+def _located(m, i, position):
+    return z3.And(0 <= i, i < zint(m.n), position <= m[i], z3.Implies(i > 0, m[i - 1] < position))
+
+
+def _exact_clause(build):
+    """forall i. located(M, i, position) => post-state == abstract op at run i   (native: skipped, the
+    view-level clauses are the native oracle)"""
+    def clause(a, r, p):
+        if not isinstance(a.vault, VaultView):
+            return True
+        mname = a.vault_map_name
+        i = z3.FreshInt("irun")
+        exp = build(a, i)
+        return z3.ForAll([i], z3.Implies(_located(a.vault.map(mname), i, a.position),
+                                         exact_state(p.vault, a.vault, mname, exp, i)))
+    return clause
+
+
+_exact_set = _exact_clause(lambda a, i: abs_set(a.vault, a.vault_map_name, i, a.position, a.item.node, a.item.rep,
+                                                a.item.pl, a.clone))
+_exact_ins = _exact_clause(lambda a, i: abs_insert(a.vault, a.vault_map_name, i, a.position, a.item.rep, a.item.pl))
+_exact_del = _exact_clause(lambda a, i: abs_delete(a.vault, a.vault_map_name, i))
+
+from pyvc.spec import REGISTRY as _REG  # noqa: E402
+
+_REG["odfdo.element_cached:set_item_in_vault"].ensures.append(Clause("exact", P_VAULT | {"C08", "C10"}, _exact_set))
+_REG["odfdo.element_cached:insert_item_in_vault"].ensures.append(Clause("exact", P_VAULT | {"C08", "C10"}, _exact_ins))
+_REG["odfdo.element_cached:delete_item_in_vault"].ensures.append(Clause("exact", P_VAULT | {"C08", "C10"}, _exact_del))
+for _t in ("set_item_in_vault", "insert_item_in_vault", "delete_item_in_vault"):
+    _c = _REG["odfdo.element_cached:" + _t]
+    _c.props |= P_VAULT | {"C08", "C10"}
+
+
+# ------------------------------------------------------------------ modular use: the abstract operations as call hooks
+def _subst_markers(nodes_term, n_item, n_cur):
+    x = z3.FreshInt("x")
+    return LMap(nodes_term, x, z3.If(x == FRESH_ITEM, n_item, z3.If(x == FRESH_CUR, n_cur, x)))
+
+
+def _hook_common(en, con, vals, site, need_item=True):
+    pre = en.views(vals)
+    base = f"{en.c.target}[{en.case_label}]/call:{site}"
+    en.oblige(f"{base}/pre/path:{en.path_id()}", con.requires(pre), en.c.props | con.props, "callee-pre",
+              {"callee": con.target})
+    mname = vals["vault_map_name"]
+    kind = KIND_OF_MAP[mname]
+    v = pre.vault
+    i = en.fresh("irun", "int")
+    # the run containing `position` exists (INV: strictly increasing map whose last entry >= position)
+    en.pc.append(_located(v.map(mname), i, zint(vals["position"])))
+    return pre, mname, kind, v, i
+
+
+def _install(en, vault, mname, kind, exp, n_item, n_cur):
+    vault.fields["__items_" + kind] = _subst_markers(exp.nodes, n_item, n_cur)
+    vault.fields[mname] = ListV(exp.m)
+    vault.fields["_indexes"][mname] = {}
+
+
+def hook_set_item(en, con, vals, site):
+    pre, mname, kind, v, i = _hook_common(en, con, vals, site)
+    base = f"{en.c.target}[{en.case_label}]/call:{site}"
+    en.oblige(f"{base}/case-fits/path:{en.path_id()}", con.cases["fits"](pre), en.c.props | con.props, "callee-pre",
+              {"callee": con.target, "note": "the modular contract covers the `fits` case only (overlap: known finding)"})
+    st = xstate(en)
+    item, vault, clone, position = vals["item"], vals["vault"], vals["clone"], zint(vals["position"])
+    exp = abs_set(v, mname, i, position, pre.item.node, pre.item.rep, pre.item.pl, clone)
+    cur = lift(v.seq(kind).term.sel(i))
+    start = before(v.map(mname), i) + 1
+    b = position - start
+    a = lift(v.map(mname).term.sel(i)) - (position + pre.item.rep - 1)
+    n_new, n_cur = st.fresh_node(), st.fresh_node()
+    cur_pl, cur_rep = z3.Select(st.pl, cur), z3.Select(st.rep, cur)
+    st.rep = z3.Store(st.rep, cur, z3.If(b >= 1, b, cur_rep))
+    st.rep = z3.Store(st.rep, n_new, pre.item.rep)
+    st.pl = z3.Store(st.pl, n_new, pre.item.pl)
+    st.rep = z3.Store(st.rep, n_cur, z3.If(a >= 1, a, 1))
+    st.pl = z3.Store(st.pl, n_cur, cur_pl)
+    _install(en, vault, mname, kind, exp, n_new, n_cur)
+    if isinstance(clone, z3.ExprRef):
+        if en.decide(clone):
+            return make_wrapper(en, item.cls, n_new, x=item.fields.get("x"), y=item.fields.get("y"))
+        return item
+    return make_wrapper(en, item.cls, n_new, x=item.fields.get("x"), y=item.fields.get("y")) if clone else item
+
+
+def hook_insert_item(en, con, vals, site):
+    pre, mname, kind, v, i = _hook_common(en, con, vals, site)
+    st = xstate(en)
+    item, vault, position = vals["item"], vals["vault"], zint(vals["position"])
+    exp = abs_insert(v, mname, i, position, pre.item.rep, pre.item.pl)
+    cur = lift(v.seq(kind).term.sel(i))
+    start = before(v.map(mname), i) + 1
+    b = position - start
+    n_new, n_cur = st.fresh_node(), st.fresh_node()
+    cur_pl, cur_rep = z3.Select(st.pl, cur), z3.Select(st.rep, cur)
+    st.rep = z3.Store(st.rep, cur, z3.If(b >= 1, b, cur_rep))
+    st.rep = z3.Store(st.rep, n_new, pre.item.rep)
+    st.pl = z3.Store(st.pl, n_new, pre.item.pl)
+    st.rep = z3.Store(st.rep, n_cur, z3.If(b >= 1, cur_rep - b, 1))
+    st.pl = z3.Store(st.pl, n_cur, cur_pl)
+    _install(en, vault, mname, kind, exp, n_new, n_cur)
+    return make_wrapper(en, item.cls, n_new, x=item.fields.get("x"), y=item.fields.get("y"))
+
+
+def hook_delete_item(en, con, vals, site):
+    vals = dict(vals)
+    pre, mname, kind, v, i = _hook_common(en, con, vals, site, need_item=False)
+    st = xstate(en)
+    vault = vals["vault"]
+    exp = abs_delete(v, mname, i)
+    cur = lift(v.seq(kind).term.sel(i))
+    cur_rep = z3.Select(st.rep, cur)
+    st.rep = z3.Store(st.rep, cur, z3.If(cur_rep >= 2, cur_rep - 1, cur_rep))
+    _install(en, vault, mname, kind, exp, z3.IntVal(-1), z3.IntVal(-2))
+    return None
+
+
+_REG["odfdo.element_cached:set_item_in_vault"].call = hook_set_item
+_REG["odfdo.element_cached:insert_item_in_vault"].call = hook_insert_item
+_REG["odfdo.element_cached:delete_item_in_vault"].call = hook_delete_item
